@@ -156,10 +156,15 @@ class SQLiteAlterTableSQLResult(AlterTableSQLResult):
             if _field.db_type(connection=connection) is not None
         ]
 
+        # Only the existing columns can have been deleted. A column that's
+        # deleted and then added back under the same name must be kept.
         new_fields = [
             replaced_fields.get(_field.column, _field)
-            for _field in old_fields + added_fields
+            for _field in old_fields
             if _field.column not in deleted_columns
+        ] + [
+            replaced_fields.get(_field.column, _field)
+            for _field in added_fields
         ]
 
         field_values = OrderedDict()
